@@ -35,7 +35,7 @@ def main():
     rc, out = sh('cmake -G Ninja -B _build -DCMAKE_BUILD_TYPE=RelWithDebInfo -DCMAKE_CXX_FLAGS=-Wno-error >/dev/null 2>&1; cmake --build _build 2>&1 | tail -3', wt)
     meta['ran'].append('cmake build of the clean worktree: rc=%d' % rc)
     build_demo = ('g++ -std=c++11 -DH5_USE_110_API=1 -I%s/include -I%s/_build/include -I/usr/include/hdf5/serial %s -L%s/_build -lnixio '
-                  '-L/usr/lib/x86_64-linux-gnu/hdf5/serial -lhdf5 -lboost_date_time -lboost_regex -lboost_filesystem -lboost_system '
+                  '-L/usr/lib/x86_64-linux-gnu/hdf5/serial -lhdf5 -lboost_date_time -lboost_regex -lboost_filesystem -lboost_system -pthread '
                   '-o /tmp/seeds/demo%s-%s-%s' % (wt, wt, demo, wt, a.round, a.prop, a.variant))
     rc, out = sh(build_demo)
     if rc != 0:
